@@ -640,6 +640,17 @@ func (bd *Bounds) linear(v ssa.Value, at ssa.Instruction) (ssa.Value, int64) {
 				}
 			}
 		case *ssa.BinOp:
+			if x.Op == token.ADD {
+				if n, ok := ConstInt(x.X); ok {
+					if _, isC := x.Y.(*ssa.Const); !isC {
+						if r, ok := bd.IV.BinRaw(x, at); ok && fits(r, x.Type()) {
+							off += n
+							v = x.Y
+							continue
+						}
+					}
+				}
+			}
 			if x.Op == token.ADD || x.Op == token.SUB {
 				if n, ok := ConstInt(x.Y); ok {
 					if r, ok := bd.IV.BinRaw(x, at); ok && fits(r, x.Type()) {
